@@ -5,8 +5,12 @@
 DIFF=$1; shift
 OUT=/dev/shm/mut-out; mkdir -p $OUT
 cd /repo && git diff --quiet || { echo "/repo is dirty"; exit 2; }
-git -C /repo apply $DIFF 2>/dev/null || git -C /repo apply --3way $DIFF || { echo "patch does not apply to /repo"; git -C /repo reset -q --hard HEAD; exit 2; }; git -C /repo reset -q
-trap 'git -C /repo checkout -q -- .' EXIT
+git -C /repo apply $DIFF 2>/dev/null || git -C /repo apply --3way $DIFF >/dev/null 2>&1 || { echo "patch does not apply to /repo"; git -C /repo reset -q --hard HEAD; exit 2; }
+if [ -n "$(git -C /repo diff --name-only --diff-filter=U)" ] || grep -rlq '^<<<<<<< ' /repo/*.go /repo/markdown/*.go /repo/cmd/gtree/*.go 2>/dev/null; then
+  echo "patch applies only with conflicts (needs a manual rebase)"; git -C /repo reset -q --hard HEAD; exit 2
+fi
+git -C /repo reset -q
+trap 'git -C /repo reset -q --hard HEAD' EXIT
 cd /verif
 for id in "$@"; do
   VERIF_OUT=$OUT ./run.sh check $id --tier ${TIER:-quick} > $OUT/$id.log 2>&1; rc=$?
